@@ -1,6 +1,6 @@
 From Coq Require Import Extraction ExtrOcamlBasic List ZArith.
-From MirV Require Import Mir.DocSpec Mir.CExpr C02.RowCheck C02.Table C02.GvnCheck gen.InterpTable gen.GvnFoldTable.
+From MirV Require Import Mir.DocSpec Mir.DocSpecLD Mir.CExpr C02.RowCheck C02.Table C02.GvnCheck gen.InterpTable gen.GvnFoldTable.
 Extraction Language OCaml.
 Extraction "c02x.ml" doc_sem doc_branch doc_ovf ovf_defined doc_ovf_branch res_kind arg_kinds res_mask eqv
   has_doc_sem load_ext store_trunc opcode_of_num opcode_num
-  stmt_value stmt_branch stmt_ovf env_of flag_env row_ok interp_table gvn_row_ok gvn_table.
+  stmt_value stmt_branch stmt_ovf env_of flag_env row_ok interp_table gvn_row_ok gvn_table doc_sem_ld ld_is_nan.
